@@ -1,5 +1,5 @@
 #!/usr/bin/env python3
-# seed_ingest.py <ID> [extra check ids...] - take the changes a seeding sub-agent left in /tmp/seed/<ID>/out/, confirm each
+# seed_ingest.py <ID> [extra check ids...] [--src /tmp/seed2] [--offset 2] - take the changes a seeding sub-agent left in /tmp/seed/<ID>/out/, confirm each
 # demonstration (passes on clean HEAD, fails with the change) in a fresh scratch worktree, store it under seeded/<ID>-<i>/
 # and run the property's check(s) against it (mutation rehearsal). Never touches /repo's working tree.
 import json
@@ -23,9 +23,19 @@ def run_demo(demo, root):
 
 
 def main():
-    pid = sys.argv[1]
-    checks = [pid] + sys.argv[2:]
-    src = '/tmp/seed/%s/out' % pid
+    argv = list(sys.argv[1:])
+    root, offset = '/tmp/seed', 0
+    if '--src' in argv:
+        k = argv.index('--src')
+        root = argv[k + 1]
+        del argv[k:k + 2]
+    if '--offset' in argv:
+        k = argv.index('--offset')
+        offset = int(argv[k + 1])
+        del argv[k:k + 2]
+    pid = argv[0]
+    checks = [pid] + argv[1:]
+    src = '%s/%s/out' % (root, pid)
     os.makedirs('/tmp/seedrun', exist_ok=True)
     for i in (1, 2):
         patch = os.path.join(src, 'change%d.diff' % i)
@@ -46,7 +56,7 @@ def main():
         finally:
             sh(['git', '-C', '/repo', 'worktree', 'remove', '--force', wt])
         confirmed = clean.returncode == 0 and changed is not None and changed.returncode != 0
-        dst = os.path.join(VERIF, 'seeded', '%s-%d' % (pid, i))
+        dst = os.path.join(VERIF, 'seeded', '%s-%d' % (pid, i + offset))
         os.makedirs(dst, exist_ok=True)
         shutil.copy(patch, os.path.join(dst, 'patch.diff'))
         shutil.copy(demo, os.path.join(dst, os.path.basename(demo).replace('demo%d' % i, 'demo')))
@@ -67,7 +77,7 @@ def main():
         }
         with open(os.path.join(dst, 'meta.json'), 'w') as f:
             json.dump(meta, f, indent=1)
-        print('%s-%d confirmed=%s %s' % (pid, i, confirmed, ' | '.join('%s %s' % (c['check'], c['result']) for c in meta['checks'])))
+        print('%s-%d confirmed=%s %s' % (pid, i + offset, confirmed, ' | '.join('%s %s' % (c['check'], c['result']) for c in meta['checks'])))
 
 
 if __name__ == '__main__':
